@@ -1,5 +1,5 @@
 #!/usr/bin/env python3
-"""Apply every seeded change to /repo in turn, run the quick checks named in its meta.json, revert, and record
+"""Apply every seeded change to /repo (or $PARSO_REPO) in turn, run the quick checks named in its meta.json, revert, and record
 what each check reported (seeded/matrix.json).  /repo must be clean and nothing else may use it meanwhile."""
 import glob
 import json
@@ -9,12 +9,13 @@ import subprocess
 import sys
 
 VERIF = os.path.dirname(os.path.dirname(os.path.abspath(__file__)))
+REPO = os.environ.get('PARSO_REPO', '/repo')    # a scratch worktree when run from a scratch copy of /verif
 only = sys.argv[1:]
 res = {}
 mpath = os.path.join(VERIF, 'seeded', 'matrix.json')
 if os.path.exists(mpath):
     res = json.load(open(mpath))
-assert not subprocess.run(['git', '-C', '/repo', 'status', '--porcelain', '-uno'], stdout=subprocess.PIPE).stdout.strip(), \
+assert not subprocess.run(['git', '-C', REPO, 'status', '--porcelain', '-uno'], stdout=subprocess.PIPE).stdout.strip(), \
     '/repo is not clean'
 for d in sorted(glob.glob(os.path.join(VERIF, 'seeded', 'C*'))):
     name = os.path.basename(d)
@@ -22,7 +23,7 @@ for d in sorted(glob.glob(os.path.join(VERIF, 'seeded', 'C*'))):
         continue
     meta = json.load(open(os.path.join(d, 'meta.json')))
     checks = meta.get('caught_by') or sorted({m.group(1) for c in meta['checks_run'] for m in [re.search(r'check (C\d\d)', c)] if m})
-    subprocess.run(['git', '-C', '/repo', 'apply', os.path.join(d, 'patch.diff')], check=True)
+    subprocess.run(['git', '-C', REPO, 'apply', os.path.join(d, 'patch.diff')], check=True)
     try:
         row = {}
         for c in checks:
@@ -34,5 +35,5 @@ for d in sorted(glob.glob(os.path.join(VERIF, 'seeded', 'C*'))):
             print(name, c, row[c], flush=True)
         res[name] = row
     finally:
-        subprocess.run(['git', '-C', '/repo', 'checkout', '--', '.'], check=True)
+        subprocess.run(['git', '-C', REPO, 'checkout', '--', '.'], check=True)
     json.dump(res, open(mpath, 'w'), indent=1, sort_keys=True)
